@@ -42,7 +42,7 @@ Definition run_hal (code : Z) (ps : list Z) (vs : list (list Z)) : option (list 
   let o := cnv_off (length A) (length B) off in
   let ms := cnv_min_size fft rsz (length A) (length B) off in
   let f := fun k => let c := cnv_coeff n A B (k + o) in if byc then map (wrap (if fft then 64 else 128)) c else c in
-  Some [cnv_store false n rcols rsz rcol ms f (v vs 2); [1]].
+  Some [cnv_store n rcols rsz rcol ms f (v vs 2); [1]].
 
 (* ---------------- part 2, level 1 ---------------- *)
 Definition run_core (code : Z) (ps : list Z) (vs : list (list Z)) : option (list (list Z)) :=
